@@ -293,6 +293,45 @@ func All(nbits int) []Op {
 				}
 				return sat1(bi(0))
 			}},
+		// a wire marked boolean, then a SCALED term on the same wire used where a boolean is required
+		{Name: "AssertBool;AssertBool(2x)", NIn: 1, NOut: 0,
+			Build: func(api frontend.API, in []frontend.Variable) []frontend.Variable {
+				api.AssertIsBoolean(in[0])
+				api.AssertIsBoolean(api.Mul(in[0], 2))
+				return nil
+			},
+			Ref: func(p *big.Int, in []*big.Int) Res { return Res{Sat: in[0].Sign() == 0} }},
+		{Name: "AssertBool(2x);AssertBool", NIn: 1, NOut: 0,
+			Build: func(api frontend.API, in []frontend.Variable) []frontend.Variable {
+				api.AssertIsBoolean(api.Mul(in[0], 2))
+				api.AssertIsBoolean(in[0])
+				return nil
+			},
+			Ref: func(p *big.Int, in []*big.Int) Res { return Res{Sat: in[0].Sign() == 0} }},
+		{Name: "And;Select(-a)", NIn: 3, NOut: 1,
+			Build: func(api frontend.API, in []frontend.Variable) []frontend.Variable {
+				api.And(in[0], in[1])
+				return []frontend.Variable{api.Select(api.Neg(in[0]), in[2], 7)}
+			},
+			Ref: func(p *big.Int, in []*big.Int) Res {
+				// a, b boolean and -a boolean => a == 0 => selects the second branch
+				if !isBool(in[1]) || in[0].Sign() != 0 {
+					return unsat
+				}
+				return sat1(bi(7))
+			}},
+		{Name: "IsZero;Xor(3z)", NIn: 2, NOut: 1,
+			Build: func(api frontend.API, in []frontend.Variable) []frontend.Variable {
+				z := api.IsZero(in[0])
+				return []frontend.Variable{api.Xor(api.Mul(z, 3), in[1])}
+			},
+			Ref: func(p *big.Int, in []*big.Int) Res {
+				// 3z boolean => z == 0 => in[0] != 0; result = in[1]
+				if in[0].Sign() == 0 || !isBool(in[1]) {
+					return unsat
+				}
+				return sat1(in[1])
+			}},
 		{Name: "AssertBool;Select", NIn: 3, NOut: 1,
 			Build: func(api frontend.API, in []frontend.Variable) []frontend.Variable {
 				api.AssertIsBoolean(in[0])
